@@ -39,8 +39,13 @@ def load_variants(props=None):
             meta = json.load(f)
         if props and meta["property"] not in props:
             continue
-        if not meta.get("checks", {}).get("caught_by_own_property", True):
-            continue        # a recorded miss (outside the reach of this family): listed in seeded/MATRIX.md, not asserted
+        ck = meta.get("checks", {})
+        if not ck.get("caught_by_own_property", True):
+            if ck.get("own_check_exit") == 2:
+                # the honest answer of the own check is exit 2 (the seed redesigns the construct beyond what the rule locates): asserted as such --
+                # never a silent pass
+                out.append(dict(id="seeded:" + d, prop=meta["property"], kind="break", patch=os.path.join(sd, d, "patch.diff"), inconclusive_ok=True))
+            continue        # (a recorded silent miss, if there ever is one, is listed in seeded/MATRIX.md, not asserted)
         out.append(dict(id="seeded:" + d, prop=meta["property"], kind="break", patch=os.path.join(sd, d, "patch.diff")))
     # behaviour-preserving refactorings written by independent sub-agents (twins/<id>/patch.diff, each with the author's equivalence
     # program that was run once when the twin was kept): the checks must stay silent.  Pairs (twin, property) = the twin's own property
@@ -129,6 +134,8 @@ def run_one(v):
                 ok = any(l.startswith("REFUTED " + v["rule"]) for l in out.splitlines())
             if ok and v.get("names"):
                 ok = any(l.startswith("REFUTED") and v["names"] in l for l in out.splitlines())
+            if not ok and v.get("inconclusive_ok") and r.returncode == 2 and "VIOLATION" not in out:
+                return v, "INCONCL-OK", "", ""
             return v, "CAUGHT" if ok else ("MISSED(exit=%d)" % r.returncode), "", out
         ok = (r.returncode == 0 or (v.get("inconclusive_ok") and r.returncode == 2)) and "VIOLATION" not in out
         return v, "SILENT" if ok else ("FALSE-ALARM(exit=%d)" % r.returncode), "", out
@@ -151,7 +158,7 @@ def main(argv=None):
     bad = 0
     with cf.ThreadPoolExecutor(max_workers=a.jobs) as ex:
         for v, status, err, out in ex.map(run_one, vs):
-            good = status in ("CAUGHT", "SILENT")
+            good = status in ("CAUGHT", "SILENT", "INCONCL-OK")
             if not good:
                 bad += 1
             print("%-12s %-5s %-6s %-44s %s" % (status, v["prop"], v["kind"], v["id"], err))
